@@ -103,6 +103,28 @@ func main() {
 		}
 		fmt.Printf("%-28s 56 ascending pages: boundary_order=%v\n", "orderof-kernel-reads-past-end", ix.ColumnIndex().BoundaryOrder)
 	})
+	// skip-page-bounds-zero-index: SkipPageBounds writes a column index with min = max = zero value
+	try("skip-page-bounds-zero-index", func() {
+		type R struct {
+			A int32 `parquet:"a"`
+		}
+		_, cc, ci := open([]parquet.WriterOption{parquet.SkipPageBounds("a")}, []R{{5}, {7}}, []R{{-3}})
+		if ci == nil {
+			fmt.Printf("%-28s no column index (repaired)\n", "skip-page-bounds-zero-index")
+			return
+		}
+		fmt.Printf("%-28s min=%v max=%v null_page=%v Search(5)=%d NumPages=%d (5 is in page 0)\n", "skip-page-bounds-zero-index",
+			ci.MinValue(0), ci.MaxValue(0), ci.NullPage(0), parquet.Search(ci, parquet.Int32Value(5), cc.Type()), ci.NumPages())
+	})
+	// unencoded-byte-array-bytes-dict: dictionary-encoded string column counts 0 unencoded bytes
+	try("unencoded-byte-array-bytes-dict", func() {
+		type R struct {
+			D string `parquet:"d,dict"`
+		}
+		f, _, _ := open(nil, []R{{"abc"}, {"abc"}, {"de"}})
+		fmt.Printf("%-28s unencoded_byte_array_data_bytes=%d (the values have 8 bytes)\n", "unencoded-byte-array-bytes-dict",
+			f.Metadata().RowGroups[0].Columns[0].MetaData.SizeStatistics.UnencodedByteArrayDataBytes)
+	})
 	// orderof-float-nan-differs-from-portable: 17 float pages, second one all-NaN
 	try("orderof-float-nan", func() {
 		ix := parquet.FloatType.NewColumnIndexer(16)
